@@ -278,8 +278,7 @@ class Gen:
             self.new_arg(t)
         if self.target != "cpp" and self.ftypes[0] in COMPLEX_OF and rng.random() < 0.2:
             self.new_arg(COMPLEX_OF[self.ftypes[0]])  # complex argument: complex constants can be `like` it
-        avoid_kinds = set()
-        if self.avoid:
+        avoid_kinds = set()  # (kinds with a known finding would be listed here; none at present)
         kinds = [k for k in self.declared if k in KNOWN and k not in avoid_kinds]
         extra = [k for k in ("square", "hypot") if k not in self.declared]
         todo = []
